@@ -98,7 +98,7 @@ def renderFullscreen (win : Win) (h w : Nat) (array : List FmtStr) (pos : Nat ×
   let post : List TermOp := if !win.hideCursor then [.show] else []
   ({ win with cache := cur }, pre ++ ops1 ++ ops2 ++ [.cup pos.1 pos.2] ++ post)
 
-/-- `FullscreenWindow.__enter__` / `__exit__` -/
+/-- `FullscreenWindow.__enter__` / `__exit__` (tied by props/c02.py, steps E / X; what leaving must restore is C12's) -/
 def fullscreenEnter (win : Win) : List TermOp := [.altEnter] ++ (if win.hideCursor then [.hide] else [])
 def fullscreenExit (win : Win) : List TermOp := [.altLeave] ++ (if win.hideCursor then [.show] else [])
 
@@ -224,10 +224,17 @@ def diffOnce (win : CAWin) (row : Int) : CAWin × Int :=
     let (top, dy) := upLoop (-dy).toNat top dy
     ({ win with top := top, lastCursorRow := some row }, dy)
 
-/-- One cursor query made by `get_cursor_vertical_diff`: the row the terminal reports and the number of
-    nested `get_cursor_vertical_diff` calls (SIGWINCH handlers) that arrive while the query is in progress. -/
+/-- what the cursor query of one round of `get_cursor_vertical_diff` does: `get_cursor_position` returns a row, or
+    raises (ValueError for input ahead of the report without a callback, or for a read returning '') -/
+inductive Outcome
+  | row (r : Int)
+  | raises (e : PyErr)
+  deriving Repr
+
+/-- One cursor query made by `get_cursor_vertical_diff`: its outcome and the number of nested
+    `get_cursor_vertical_diff` calls (SIGWINCH handlers) that arrive while the query is in progress. -/
 structure Round where
-  row : Int
+  outcome : Outcome
   nested : Nat
   deriving Repr
 
@@ -238,20 +245,27 @@ def nestedCalls : Nat → CAWin → CAWin
   | 0, win => win
   | n + 1, win => nestedCalls n (nestedCall win).1
 
-/-- the `while True:` of `get_cursor_vertical_diff`; `none` = no report left (the real read would block) -/
-def diffLoop (cursorDy : Int) (win : CAWin) : List Round → Option (CAWin × Int × List Round)
+/-- the `while True:` of `get_cursor_vertical_diff`:
+    `in_get_cursor_diff = True; another_sigwinch = False; try: cursor_dy += once() finally: in_get_cursor_diff = False`.
+    `none` = no report left (the real read would block); `.error e` = the query raised `e` (the exception propagates
+    after the `finally` cleared the flag; nothing else of the window changed in that round, and the `cursor_dy`
+    accumulated so far is lost with the frame). -/
+def diffLoop (cursorDy : Int) (win : CAWin) : List Round → Option (CAWin × Except PyErr Int × List Round)
   | [] => none
   | rd :: rest =>
     let win := { win with inDiff := true, anotherSigwinch := false }
     let win := nestedCalls rd.nested win             -- handlers running during the query
-    let (win, dy) := diffOnce win rd.row
-    let cursorDy := cursorDy + dy
-    let win := { win with inDiff := false }
-    if !win.anotherSigwinch then some (win, cursorDy, rest) else diffLoop cursorDy win rest
+    match rd.outcome with
+    | .raises e => some ({ win with inDiff := false }, .error e, rest)
+    | .row r =>
+      let (win, dy) := diffOnce win r
+      let cursorDy := cursorDy + dy
+      let win := { win with inDiff := false }
+      if !win.anotherSigwinch then some (win, .ok cursorDy, rest) else diffLoop cursorDy win rest
 
 /-- `get_cursor_vertical_diff()` -/
-def cursorVerticalDiff (win : CAWin) (rounds : List Round) : Option (CAWin × Int × List Round) :=
-  if win.inDiff then some ((nestedCall win).1, 0, rounds) else diffLoop 0 win rounds
+def cursorVerticalDiff (win : CAWin) (rounds : List Round) : Option (CAWin × Except PyErr Int × List Round) :=
+  if win.inDiff then some ((nestedCall win).1, .ok 0, rounds) else diffLoop 0 win rounds
 
 /-! ### CursorAwareWindow.render_to_terminal, scroll_down, __enter__, __exit__ -/
 
